@@ -559,6 +559,9 @@ func runC35(c *Ctx, a c35Anchors) {
 	c.Rule("C35-B1", "an unsynchronised row buffer is used by one stage only (and by the function body only where no stage can be running)", fl("C35-B1"))
 	c.Rule("C35-E1", "the error of every iterator/callback/group/function-variable/same-package call reaches the returned error on every path on which it is non-nil and not io.EOF; a discarded error is followed by error returns only", fl("C35-E1"))
 
+	if !c.fixtureMode && a.pkgRel == "server" {
+		c35MetaFlags(c)
+	}
 	pk := c.P.Pkg(a.pkgRel)
 	if pk == nil {
 		c.Undecided("C35-F0", "package", 0, "package "+a.pkgRel+" not loaded")
